@@ -86,6 +86,19 @@ func (x *Exec) specCall(c *SpecCtx, e *Expr) (*Val, error) {
 		c2 := c.inState(c.old)
 		c2.inOld = true
 		return x.specEval(c2, e.Args[0])
+	case "string":
+		// string(e): Go conversion of a string-kinded value (e.g. a queue.State) to string; same value, type string
+		if len(e.Args) != 1 {
+			return nil, fmt.Errorf("string(e)")
+		}
+		v, err := x.specEval(c, e.Args[0])
+		if err != nil {
+			return nil, err
+		}
+		if v.K != VScalar || v.T.S != SStr {
+			return nil, fmt.Errorf("string(e): e is not string-kinded in %q", e.String())
+		}
+		return retype(v, types.Typ[types.String]), nil
 	case "local":
 		// local(name): value of a body local in the state being described (exit state in ensures/sets)
 		if len(e.Args) != 1 || e.Args[0].Kind != "ident" {
@@ -499,7 +512,7 @@ func (x *Exec) specCall(c *SpecCtx, e *Expr) (*Val, error) {
 		if err != nil {
 			return nil, err
 		}
-		return intVal(tArith("-", as[0].T, x.timeEpoch())), nil
+		return scalar(tArith("-", as[0].T, x.timeEpoch()), types.Typ[types.Int64]), nil
 	case "hexOf":
 		as, err := evalArgs()
 		if err != nil {
